@@ -37,7 +37,10 @@ def run(ctx, report):
     report.section("Caption guards", caption_guards, ctx, report)
     from . import timestamp_fold
     report.section("lexical forms", timestamp_fold.run, ctx, report)
-    from . import srt_doc_fold
+    from . import srt_doc_fold, reader_doc_fold
+    report.section("generated documents", reader_doc_fold.run, ctx, report, {
+        "cues": ("R-SEGMENT", "4", "one caption per cue of the document, in order"),
+        "times": ("R-SEGMENT", "4", "each caption carries the instants of its own timing line / frame pair")})
     report.section("SRT documents", srt_doc_fold.run, ctx, report, {
         "cues": ("R-SEGMENT", "4", "SRT: one caption per cue of the document, whatever blank line separates the cues"),
         "times": ("R-SEGMENT", "4", "SRT: each caption carries the instants of its own timing line, in document order"),
